@@ -18,7 +18,7 @@ Module S2 := PSO.Abstract.Safety2_Election.
 
 (* the fields [Rn] reads / the fields [Hn] reads *)
 Definition rv (x : node) := (role x, term x, voted x, votes x, log x, commit x, match_idx x).
-Definition hv (x : node) := (sr x, log x, queue x, replay_idx x, applied x, readonly x).
+Definition hv (x : node) := (sr x, log x, queue x, replay_idx x, applied x, readonly x, commit x).
 
 Lemma fv_rv x y : fv x = fv y -> rv x = rv y.
 Proof. intros H. fvinj H. unfold rv. congruence. Qed.
@@ -32,7 +32,7 @@ Proof. unfold rv. intros H. injection H; intros. repeat split; assumption. Qed.
 
 Lemma hv_eq x y : hv x = hv y ->
   sr x = sr y /\ log x = log y /\ queue x = queue y /\ replay_idx x = replay_idx y /\
-  applied x = applied y /\ readonly x = readonly y.
+  applied x = applied y /\ readonly x = readonly y /\ commit x = commit y.
 Proof. unfold hv. intros H. injection H; intros. repeat split; assumption. Qed.
 
 Section Sim.
@@ -59,13 +59,13 @@ Qed.
 
 Lemma Hn_hv x y : hv y = hv x -> Hn x -> Hn y.
 Proof.
-  intros H [A1 A2 A3 A4 A5 A6 A7].
-  destruct (hv_eq _ _ H) as (E1 & E2 & E3 & E4 & E5 & E6).
-  constructor; rewrite ?E1, ?E2, ?E3, ?E4, ?E5, ?E6; auto.
+  intros H [A1 A2 A3 A4 A5 A6 A7 A8].
+  destruct (hv_eq _ _ H) as (E1 & E2 & E3 & E4 & E5 & E6 & E7).
+  constructor; rewrite ?E1, ?E2, ?E3, ?E4, ?E5, ?E6, ?E7; auto.
 Qed.
 
 Lemma Hn_Hser x : Hn x -> Hser x.
-Proof. intros [A1 A2 A3 _ _ _ _]. repeat split; auto. Qed.
+Proof. intros [A1 A2 A3 _ _ _ _ _]. repeat split; auto. Qed.
 
 Record LS (n : nid) (s : M.state) (S : Node.S) : Prop := {
   LS_reach : KS.kreachable V' s;
@@ -256,7 +256,7 @@ Proof.
   assert (Hc0 : M.rl (M.nodes s (n2 n)) = M.Candidate).
   { rewrite (Rn_role _ _ _ _ _ RN), Hr. reflexivity. }
   assert (Hmaj : M.majority V' (length (M.votesFrom (M.nodes s (n2 n)))) = true).
-  { rewrite (Rn_votes _ _ _ _ _ RN Hr). eapply majority_abs; eauto using LS_in, LS_others. }
+  { rewrite (proj1 (Rn_votes _ _ _ _ _ RN Hr)). eapply majority_abs; eauto using LS_in, LS_others. }
   destruct (t_lead_ok V' (n2 n) s Hj Hc0 Hmaj) as [K E].
   set (s1 := M.do_lead (n2 n) s) in *.
   assert (K1 : ksn (n2 n) s s1) by (apply ksn_one; auto).
@@ -281,7 +281,7 @@ Proof.
     - intros Hv. rewrite Fterm. apply A8. congruence. }
   assert (Hoth' : others x' = vminus n V) by (rewrite <- (LS_others _ _ _ L); congruence).
   assert (HH' : Hn x').
-  { destruct HH as [B1 B2 B3 B4 B5 B6 B7]. constructor; try congruence.
+  { destruct HH as [B1 B2 B3 B4 B5 B6 B7 B8]. constructor; try congruence.
     - rewrite Flog.
       apply Forall_app. split; [exact B4|]. constructor; [|constructor]. unfold small, small_cmd. cbn.
       exact Hb1. }
